@@ -183,7 +183,8 @@ pub fn cfg_strategy(f: Focus) -> impl Strategy<Value = Cfg> {
     Focus::C16 => (50, 35, 70, 99, 25),
     Focus::C17 => (40, 25, 60, 20, 10),
   };
-  let shards = if f == Focus::C17 { prop_oneof![4 => Just(1usize), 4 => Just(2), 3 => Just(8), 1 => Just(64)].boxed() } else { prop_oneof![4 => Just(1usize), 4 => Just(2), 2 => Just(8)].boxed() };
+  // shard counts the builder has to round (3, 5, 6, 12) are part of the domain: `shards(n)` accepts any n
+  let shards = if f == Focus::C17 { prop_oneof![4 => Just(1usize), 4 => Just(2), 3 => Just(8), 1 => Just(64), 2 => Just(3), 1 => Just(6)].boxed() } else { prop_oneof![4 => Just(1usize), 4 => Just(2), 2 => Just(8), 2 => Just(3), 1 => Just(5), 1 => Just(12)].boxed() };
   (
     (pol_strategy(), shards, prop_oneof![(100 - p_bounded) => Just(None), p_bounded => prop_oneof![Just(Some(1u64)), Just(Some(5)), Just(Some(5)), Just(Some(50)), Just(Some(50)), Just(Some(300))]]),
     (opt_ms(p_ttl, &TTLS_MS), opt_ms(p_tti, &TTLS_MS), opt_ms(50, &TTLS_MS)),
